@@ -44,6 +44,8 @@ func c13Single() []c13Spelling {
 		{"no blanks after colons", model.Style{TightColon: true}, false},
 		{"extra blank lines and trailing blanks", model.Style{ExtraBlank: true}, false},
 		{"string examples written with \\u escapes", model.Style{LitEscapes: true}, false},
+		{"empty inline annotations", model.Style{BareAnnot: true}, false},
+		{"empty inline annotations, CRLF", model.Style{BareAnnot: true, NL: "\r\n"}, false},
 		{"rule order permuted", model.Style{}, true},
 	}
 }
@@ -59,6 +61,7 @@ func c13Random(r *mon.Rng) c13Spelling {
 		TightColon:    r.Bool(),
 		ExtraBlank:    r.Bool(),
 		LitEscapes:    r.Bool(),
+		BareAnnot:     r.Chance(1, 3),
 		Mixed:         r.Fork(),
 	}
 	return c13Spelling{"random composition", st, r.Bool()}
